@@ -1,1 +1,664 @@
-"""C05 rule spaces, part 2."""
+"""C05 rule spaces, part 2: _basic_rules, _redundant_scatter_nd (optimizer default set, in order)."""
+from __future__ import annotations
+
+import itertools
+
+import numpy as np
+
+from vf.props import c05_spaces as S
+from vf.props.c05_mb import ONNX_DT
+from vf.props.c05_spaces import Dim, MB, Skip, Space, arr
+
+INT64_MAX = 9223372036854775807
+
+_CAST_T = ["f32", "f16", "f64", "i64", "i32", "u8", "bool", "bf16"]
+# values incl. fractional, negative, out-of-range for f16 / u8 / i32
+_CAST_X = {
+    "f32": [0.5, -1.5, 2.5, 70000.0, -70000.0, 1e-8, 65504.0, 3.3, 0.0, 255.9, 1.0009765625, 2049.0],
+    "f64": [0.5, -1.5, 2.5, 70000.0, -70000.0, 1e-8, 65504.0, 3.3, 0.0, 255.9, 1.00048828125 + 2 ** -30, 2049.0],
+    "f16": [0.5, -1.5, 2.5, 60000.0, -60000.0, 6e-8, 3.3, 0.0, 255.9, 1.0, -0.0, 2048.0],
+    "i64": [0, 1, -1, 70000, -70000, 2049, 2 ** 24 + 1, 255, 256, 3, -3, 2 ** 40],
+    "i32": [0, 1, -1, 70000, -70000, 2049, 2 ** 24 + 1, 255, 256, 3, -3, 2 ** 30],
+    "u8": [0, 1, 2, 255, 128, 127, 3, 4, 5, 6, 7, 8],
+    "bool": [True, False, True, True, False, False, True, False, True, False, True, True],
+    "bf16": None,
+}
+
+
+def _cast_x(mb, t1, shape=(3, 4)):
+    """x of element type t1 with the explicit value list; bf16 is produced by a Cast from f32."""
+    n = int(np.prod(shape))
+    if t1 == "bf16":
+        x0 = mb.inp("x", "f32", list(shape), values=[np.array(_CAST_X["f32"][:n], dtype=np.float32).reshape(shape)])
+        return mb.node("Cast", [x0], to=int(ONNX_DT["bf16"]))
+    v = np.array(_CAST_X[t1][:n], dtype=S.npd(t1)).reshape(shape)
+    v2 = np.roll(v.reshape(-1), 5).reshape(shape)
+    return mb.inp("x", t1, list(shape), values=[v, v2, v[::-1].copy()])
+
+
+def _finish(mb, y, t):
+    """bf16 cannot be fetched as numpy: observe it through a widening Cast (exact)."""
+    if t == "bf16":
+        y = mb.node("Cast", [y], to=int(ONNX_DT["f32"]))
+    mb.out(y)
+
+
+# -- Cast(Cast(x, t2), t3) -> Cast(x, t3) --------------------------------------------------------------
+def _cc_dims(rule):
+    return [
+        Dim("t1", ["f32", "f64", "i64", "f16", "bool", "u8"], _CAST_T),
+        Dim("t2", ["f32", "f16", "f64", "i32", "bool"], _CAST_T),
+        Dim("t3", ["f16", "bf16", "f32", "i64", "bool"], _CAST_T),
+        S.d_inter(1), S.D_VI, S.d_opset(18, 13, 21, 23),
+        Dim("saturate", ["absent", 1, 0], cost=1),
+    ]
+
+
+def _cc_prune(p, rule):
+    return p["saturate"] != "absent" and p["opset"] < 19
+
+
+def _cc_build(p, rule):
+    mb = MB(p["opset"])
+    x = _cast_x(mb, p["t1"])
+    sat = {} if p["saturate"] == "absent" else {"saturate": int(p["saturate"])}
+    c1 = mb.node("Cast", [x], to=int(ONNX_DT[p["t2"]]))
+    c2 = mb.node("Cast", [c1], to=int(ONNX_DT[p["t3"]]), **sat)
+    _finish(mb, c2, p["t3"])
+    S.expose(mb, p, [c1] if p["t2"] != "bf16" else [None])
+    return mb
+
+
+def _cc_near(p, rule):
+    return (p["t2"], p["t3"]) not in (("f32", "f16"), ("f32", "bf16"))
+
+
+S.register(Space("cast_cast", _cc_dims, _cc_build, near=_cc_near, prune=_cc_prune), rule_ids=["cast_cast_rule"])
+
+
+# -- Cast(x, to = type of x) -> Identity -----------------------------------------------------------------
+def _nc_dims(rule):
+    return [
+        Dim("t1", ["f32", "f64", "i64", "f16", "bool", "u8"], _CAST_T),
+        Dim("to", ["f32", "f16", "i64", "bool", "f64"], _CAST_T),
+        Dim("xsrc", ["input", "computed"]),
+        S.D_VI, S.d_opset(18, 13, 21, 23),
+        Dim("saturate", ["absent", 0], cost=1),
+    ]
+
+
+def _nc_build(p, rule):
+    mb = MB(p["opset"])
+    x = _cast_x(mb, p["t1"])
+    if p["xsrc"] == "computed":
+        x = mb.node("Identity", [x])
+    sat = {} if p["saturate"] == "absent" else {"saturate": int(p["saturate"])}
+    _finish(mb, mb.node("Cast", [x], to=int(ONNX_DT[p["to"]]), **sat), p["to"])
+    return mb
+
+
+S.register(Space("no_op_cast", _nc_dims, _nc_build, near=lambda p, r: p["t1"] != p["to"], prune=_cc_prune),
+           rule_ids=["no_op_cast_rule"])
+
+
+# -- Expand(x, shape == x.shape) -> Identity -------------------------------------------------------------
+def _ne_dims(rule):
+    return [
+        Dim("xshape", [[2, 3], [3], [1, 3], []], [[2, 3], [3], [1, 3], [], [1], [0, 3], [2, 1, 3]]),
+        Dim("target", ["same", "ones", "suffix", "lead1", "bigger", "scalar-shape", "one-for-dim"]),
+        Dim("dtype", ["f32", "i64"], ["f32", "i64", "bool", "f16"]),
+        S.d_ck(1), S.D_DIMS, S.D_VI, S.d_opset(18, 13, 21, 23),
+        Dim("symax", [0, 1], cost=1),
+    ]
+
+
+def _ne_target(xs, t):
+    if t == "same":
+        return list(xs)
+    if t == "ones":
+        return [1] * len(xs)
+    if t == "suffix":
+        return list(xs[1:])
+    if t == "lead1":
+        return [1] + list(xs)
+    if t == "bigger":
+        return [2] + list(xs)
+    if t == "scalar-shape":
+        return []
+    if t == "one-for-dim":
+        return [1] + list(xs[1:]) if xs else None
+    raise ValueError(t)
+
+
+def _ne_prune(p, rule):
+    xs = p["xshape"]
+    if _ne_target(xs, p["target"]) is None:
+        return True
+    if p["target"] in ("suffix", "one-for-dim") and not xs:
+        return True
+    if p["dims"] != "static" and p["symax"] >= len(xs):
+        return True
+    if p["dims"] == "static" and p["symax"] != 0:
+        return True
+    return False
+
+
+def _ne_build(p, rule):
+    mb = MB(p["opset"])
+    xs = p["xshape"]
+    x = mb.inp("x", p["dtype"], S.shp(p, xs, sym_axes=(p["symax"],)))
+    S.bind_like(mb, xs, sym_axes=(p["symax"],))
+    t = _ne_target(xs, p["target"])
+    sh = mb.const(arr("i64", t), S.kinds(p, 1)[0], alts=[arr("i64", [2] * len(t)), arr("i64", t)])
+    mb.out(mb.node("Expand", [x, sh]))
+    return mb
+
+
+S.register(Space("no_op_expand", _ne_dims, _ne_build, near=lambda p, r: p["target"] != "same" or S.is_nonconst(p) or p["dims"] != "static",
+                 prune=_ne_prune), rule_ids=["no_op_expand_rule"])
+
+
+# -- Flatten(x, axis) -> Reshape(x, [a, b]) ---------------------------------------------------------------
+_FL_SHAPES = [[2, 3, 4], [2, 3], [3], [2, 3, 4, 5], [0, 3], [2, 0], [2, 0, 4], [1, 1], []]
+
+
+def _fl_dims(rule):
+    return [
+        Dim("xshape", _FL_SHAPES[:7], _FL_SHAPES),
+        Dim("axis", ["absent", 0, 1, 2, -1, "rank", -2], ["absent", 0, 1, 2, 3, -1, -2, -3, "rank"]),
+        # which axes are symbolic (bitmask over the first three axes)
+        Dim("sym", [0, 1, 2, 3, 4, 6], [0, 1, 2, 3, 4, 5, 6, 7]),
+        Dim("symstyle", ["sym", "unnamed"]),
+        # runtime size of the symbolic axes: the declared one, or 0
+        Dim("rt", ["as-declared", "zero"]),
+        Dim("dtype", ["f32"], ["f32", "i64"]),
+        S.D_VI, S.d_opset(18, 13, 21, 23),
+    ]
+
+
+def _fl_axis(p):
+    r = len(p["xshape"])
+    a = p["axis"]
+    return 1 if a == "absent" else (r if a == "rank" else a)
+
+
+def _fl_prune(p, rule):
+    r = len(p["xshape"])
+    a = _fl_axis(p)
+    if not (-r <= a <= r):
+        return True
+    if p["sym"] >= (1 << min(r, 3)) and p["sym"]:
+        return True
+    if p["sym"] == 0 and (p["symstyle"] != "sym" or p["rt"] != "as-declared"):
+        return True
+    return False
+
+
+def _fl_build(p, rule):
+    mb = MB(p["opset"])
+    xs = p["xshape"]
+    axes = [i for i in range(3) if p["sym"] >> i & 1]
+    p2 = dict(p)
+    p2["dims"] = "static" if not axes else p["symstyle"]
+    x = mb.inp("x", p["dtype"], S.shp(p2, xs, sym_axes=tuple(axes)))
+    names = ("N", "M", "K")
+    base = {}
+    for j, ax in enumerate(axes):
+        base[names[j]] = xs[ax]
+        base[f"?{ax}"] = xs[ax]
+    binds = [base]
+    if axes:
+        for j, ax in enumerate(axes):
+            v = dict(base)
+            v[names[j]] = 0 if p["rt"] == "zero" else xs[ax] + 1
+            v[f"?{ax}"] = v[names[j]]
+            binds.append(v)
+    mb.bindings = binds
+    attrs = {} if p["axis"] == "absent" else {"axis": _fl_axis(p)}
+    mb.out(mb.node("Flatten", [x], **attrs))
+    return mb
+
+
+def _fl_klass(nd, p, rule):
+    if 0 in p["xshape"] and set(nd) <= {"xshape", "axis", "sym", "symstyle"}:
+        return "xshape=static-size0-dim"
+    if nd.get("rt") == "zero":
+        keep = {k: v for k, v in nd.items() if k in ("axis", "sym", "rt")}
+        return ",".join(f"{k}={v}" for k, v in keep.items())
+    return None
+
+
+def _fl_spec(p, rule):
+    from vf.props import c05_np
+    return lambda fd: [c05_np.flatten(fd["x"], _fl_axis(p))]
+
+
+S.register(Space("flatten_to_reshape", _fl_dims, _fl_build, near=None, prune=_fl_prune, klass=_fl_klass, spec=_fl_spec),
+           rule_ids=["flatten_to_reshape_rule"])
+
+
+# -- Reshape(Reshape(x, s1), s2) -> Reshape(x, s2') -----------------------------------------------------
+# (x shape, s1, s2, symbolic axes of x)
+_RR_CASES = {
+    "plain": ([2, 3, 4], [6, 4], [4, 6], ()),
+    "s2-minus1": ([2, 3, 4], [6, 4], [-1, 2], ()),
+    "s2-zero": ([2, 3, 4], [6, 4], [0, 2, 2], ()),
+    "s2-zero-differs-from-x": ([2, 3, 4], [4, 6], [0, 6], ()),
+    "s2-two-zeros": ([2, 3, 4], [6, 4], [0, 0], ()),
+    "s2-zero-and-minus1": ([2, 3, 4], [6, 4], [0, -1], ()),
+    "s2-zero-mid": ([2, 3, 4], [2, 12], [2, 0], ()),
+    "sym-minus1": ([2, 3, 4], [-1, 4], [-1, 2, 2], (0,)),
+    "sym-zero": ([2, 3, 4], [-1, 4], [0, 2, 2], (0,)),
+    "sym-zero-and-minus1": ([2, 3, 4], [-1, 12], [0, -1], (0,)),
+    "size0": ([0, 3], [3, 0], [0, 3], ()),
+    "size0-sym": ([2, 3], [3, -1], [-1, 3], (0,)),
+    "size0-sym-zero": ([2, 3], [-1, 3], [0, 3], (0,)),
+    "rank0": ([1], [], [1, 1], ()),
+    "to-scalar": ([1, 1], [1], [], ()),
+}
+
+
+def _rr_dims(rule):
+    return [
+        Dim("case", list(_RR_CASES)),
+        Dim("allowzero", ["absent", 0, 1]),
+        Dim("allowzero1", ["absent", 1]),
+        Dim("s1src", ["const", "input"]),
+        Dim("dtype", ["f32"], ["f32", "i64"]),
+        Dim("rt", ["as-declared", "zero"]),
+        S.d_ck(1), S.d_inter(1), S.D_VI, S.d_opset(18, 13, 14, 21, 23),
+        Dim("symstyle", ["sym", "unnamed"], cost=1),
+    ]
+
+
+def _rr_prune(p, rule):
+    if p["opset"] < 14 and (p["allowzero"] != "absent" or p["allowzero1"] != "absent"):
+        return True
+    if p["rt"] == "zero" and not _RR_CASES[p["case"]][3]:
+        return True
+    return False
+
+
+def _rr_build(p, rule):
+    xs, s1, s2, sym = _RR_CASES[p["case"]]
+    mb = MB(p["opset"])
+    p2 = dict(p)
+    p2["dims"] = "static" if not sym else p["symstyle"]
+    x = mb.inp("x", p["dtype"], S.shp(p2, xs, sym_axes=sym))
+    base = {"N": xs[0] if xs else 1, "?0": xs[0] if xs else 1}
+    binds = [base]
+    if sym:
+        binds.append({"N": 0 if p["rt"] == "zero" else 5, "?0": 0 if p["rt"] == "zero" else 5})
+    mb.bindings = binds
+    if p["s1src"] == "const":
+        c1 = mb.const(arr("i64", s1), "init")
+    else:
+        c1 = mb.inp("s1", "i64", [len(s1)], values=[arr("i64", s1)])
+    a1 = {} if p["allowzero1"] == "absent" else {"allowzero": int(p["allowzero1"])}
+    r1 = mb.node("Reshape", [x, c1], **a1)
+    c2 = mb.const(arr("i64", s2), S.kinds(p, 1)[0], alts=[arr("i64", [-1] + [1] * (len(s2) - 1)) if s2 else arr("i64", [])])
+    a2 = {} if p["allowzero"] == "absent" else {"allowzero": int(p["allowzero"])}
+    mb.out(mb.node("Reshape", [r1, c2], **a2))
+    S.expose(mb, p, [r1])
+    return mb
+
+
+S.register(Space("reshape_reshape", _rr_dims, _rr_build, near=lambda p, r: S.is_nonconst(p), prune=_rr_prune),
+           rule_ids=["reshape_reshape_rule"])
+
+
+# -- Slice(x, 0, h, ax), Slice(x, h, d, ax) -> Split(x, num_outputs=2, axis=-1) --------------------------
+def _ss_dims(rule):
+    return [
+        Dim("xshape", [[2, 6], [6], [2, 5], [2, 3, 4]], [[2, 6], [6], [2, 5], [2, 3, 4], [2, 1], [2, 0], [2, 2]]),
+        Dim("axis", ["-1", "last", "0"]),
+        Dim("b0", ["0", "1"]),
+        Dim("e0", ["h", "h+1", "h-1"]),
+        Dim("b1", ["=e0", "h"]),
+        Dim("e1", ["d", "d+1", "MAX", "d-1"]),
+        Dim("order", ["10", "01"]),   # node order in the graph: the matcher only anchors on the [0:h] slice when it comes last
+        Dim("form", ["4in", "5in-steps1", "3in"]),
+        Dim("dtype", ["f32"], ["f32", "i64"]),
+        S.d_ck(6), S.D_DIMS, S.D_VI, S.d_opset(18, 13, 21, 23),
+    ]
+
+
+def _ss_prune(p, rule):
+    if p["axis"] == "0" and len(p["xshape"]) == 1:
+        return True
+    if p["form"] == "3in" and p["axis"] != "0":
+        return True
+    return False
+
+
+def _ss_build(p, rule):
+    mb = MB(p["opset"])
+    xs = p["xshape"]
+    r = len(xs)
+    ax = {"-1": -1, "last": r - 1, "0": 0}[p["axis"]]
+    d = xs[ax]
+    h = d // 2
+    x = mb.inp("x", p["dtype"], S.shp(p, xs, sym_axes=(0,) if r > 1 else ()))
+    S.bind_like(mb, xs, sym_axes=(0,) if r > 1 else (), variants=[{"N": 3, "?0": 3}])
+    k = S.kinds(p, 6)
+    b0 = int(p["b0"])
+    e0 = {"h": h, "h+1": h + 1, "h-1": h - 1}[p["e0"]]
+    b1 = e0 if p["b1"] == "=e0" else h
+    e1 = {"d": d, "d+1": d + 1, "MAX": INT64_MAX, "d-1": d - 1}[p["e1"]]
+
+    def sl(b, e, kb, ke, ka):
+        ins = [x, mb.const(arr("i64", [b]), kb, alts=[arr("i64", [b + 1])]), mb.const(arr("i64", [e]), ke, alts=[arr("i64", [max(e - 1, 0)])])]
+        if p["form"] != "3in":
+            ins.append(mb.const(arr("i64", [ax]), ka, alts=[arr("i64", [0])]))
+        if p["form"] == "5in-steps1":
+            ins.append(mb.const(arr("i64", [1]), "init"))
+        return ins
+    i0 = sl(b0, e0, k[0], k[1], k[2])
+    i1 = sl(b1, e1, k[3], k[4], k[5])
+    if p["order"] == "01":
+        s0 = mb.node("Slice", i0)
+        s1 = mb.node("Slice", i1)
+    else:
+        s1 = mb.node("Slice", i1)
+        s0 = mb.node("Slice", i0)
+    mb.out(s0)
+    mb.out(s1)
+    return mb
+
+
+def _ss_near(p, rule):
+    return not (p["b0"] == "0" and p["e0"] == "h" and p["e1"] == "d" and p["axis"] != "0" and p["form"] == "4in") \
+        or S.is_nonconst(p) or p["xshape"][-1] % 2 == 1
+
+
+S.register(Space("slice_split", _ss_dims, _ss_build, near=_ss_near, prune=_ss_prune), rule_ids=["slice_split_rule"])
+
+
+# -- Transpose(x, identity perm) -> Identity ; Transpose(Transpose(x, p1), p2) -> Transpose/Identity -----
+def _perms(r):
+    return [list(q) for q in itertools.permutations(range(r))]
+
+
+def _nt_dims(rule):
+    perms = ["absent"] + _perms(1) + _perms(2) + _perms(3)
+    return [
+        Dim("perm", perms, perms + [[0, 1, 2, 3], [0, 2, 1, 3]]),
+        Dim("dtype", ["f32"], ["f32", "i64"]),
+        Dim("rank_for_absent", [1, 2]),
+        S.D_DIMS, S.D_VI, S.d_opset(18, 13, 21, 23),
+    ]
+
+
+def _nt_build(p, rule):
+    mb = MB(p["opset"])
+    perm = p["perm"]
+    r = p["rank_for_absent"] if perm == "absent" else len(perm)
+    if perm != "absent" and p["rank_for_absent"] != 1:
+        raise Skip("rank fixed by perm")
+    xs = [2, 3, 4, 5][:r]
+    x = mb.inp("x", p["dtype"], S.shp(p, xs))
+    S.bind_like(mb, xs)
+    mb.out(mb.node("Transpose", [x], **({} if perm == "absent" else {"perm": perm})))
+    return mb
+
+
+S.register(Space("no_op_transpose", _nt_dims, _nt_build,
+                 near=lambda p, r: p["perm"] == "absent" or p["perm"] != sorted(p["perm"])),
+           rule_ids=["no_op_transpose_rule"])
+
+
+def _tt_dims(rule):
+    pairs = []
+    for r in (2, 3):
+        for a in _perms(r):
+            for b in _perms(r):
+                pairs.append([a, b])
+    pairs += [["absent", [1, 0]], [[1, 0], "absent"], ["absent", "absent"]]
+    more = [[[0, 1, 2, 3], [3, 2, 1, 0]], [[1, 2, 3, 0], [3, 0, 1, 2]], [[1, 2, 3, 0], [1, 2, 3, 0]], [[0], [0]]]
+    return [
+        Dim("perms", pairs, pairs + more),
+        Dim("dtype", ["f32"], ["f32", "i64"]),
+        S.d_inter(1), S.D_DIMS, S.D_VI, S.d_opset(18, 13, 21, 23),
+    ]
+
+
+def _tt_build(p, rule):
+    mb = MB(p["opset"])
+    p1, p2 = p["perms"]
+    r = len(p1) if p1 != "absent" else (len(p2) if p2 != "absent" else 2)
+    xs = [2, 3, 4, 5][:r]
+    x = mb.inp("x", p["dtype"], S.shp(p, xs))
+    S.bind_like(mb, xs)
+    t1 = mb.node("Transpose", [x], **({} if p1 == "absent" else {"perm": p1}))
+    mb.out(mb.node("Transpose", [t1], **({} if p2 == "absent" else {"perm": p2})))
+    S.expose(mb, p, [t1])
+    return mb
+
+
+S.register(Space("transpose_transpose", _tt_dims, _tt_build, near=lambda p, r: "absent" in p["perms"]),
+           rule_ids=["transpose_transpose_rule"])
+
+
+# -- Unsqueeze(Unsqueeze(x, a1), a2) -> Unsqueeze(x, [..]) ------------------------------------------------
+def _uu_dims(rule):
+    return [
+        Dim("xshape", [[3], [2, 3], []]),
+        Dim("a1", [[0], [1], [2], [-1], [0, 1], "scalar0"], [[0], [1], [2], [-1], [-2], [0, 1], "scalar0", "scalar1"]),
+        Dim("a2", [[0], [1], [2], [3], [-1], [0, 2]], [[0], [1], [2], [3], [-1], [-2], [0, 2], "scalar0", "scalar1"]),
+        Dim("dtype", ["f32"], ["f32", "i64"]),
+        S.d_ck(2), S.d_inter(1), S.D_DIMS, S.D_VI, S.d_opset(18, 13, 21, 23),
+    ]
+
+
+def _uu_prune(p, rule):
+    return p["dims"] != "static" and not p["xshape"]
+
+
+def _uu_build(p, rule):
+    mb = MB(p["opset"])
+    xs = p["xshape"]
+    x = mb.inp("x", p["dtype"], S.shp(p, xs))
+    S.bind_like(mb, xs)
+    k = S.kinds(p, 2)
+
+    def ax(v, kind):
+        if isinstance(v, str):
+            return mb.const(arr("i64", int(v[-1])), kind, alts=[arr("i64", 0)])
+        return mb.const(arr("i64", v), kind, alts=[arr("i64", [0] * len(v)) if len(v) == 1 else arr("i64", v)])
+    u1 = mb.node("Unsqueeze", [x, ax(p["a1"], k[0])])
+    mb.out(mb.node("Unsqueeze", [u1, ax(p["a2"], k[1])]))
+    S.expose(mb, p, [u1])
+    return mb
+
+
+def _uu_near(p, rule):
+    def bad(a):
+        return isinstance(a, str) or len(a) != 1 or a[0] < 0
+    return bad(p["a1"]) or bad(p["a2"]) or S.is_nonconst(p)
+
+
+S.register(Space("unsqueeze_unsqueeze", _uu_dims, _uu_build, near=_uu_near, prune=_uu_prune),
+           rule_ids=["unsqueeze_unsqueeze_rule"])
+
+
+# -- Reshape(Squeeze(x), [-1]) -> Identity(x) for 1-D x ---------------------------------------------------
+def _sq_dims(rule):
+    return [
+        Dim("xshape", [[3], [1], [2, 3], [1, 3], []], [[3], [1], [2, 3], [1, 3], [], [0], [1, 1]]),
+        Dim("squeeze", ["no-axes", "axes-input", "axes-attr"]),
+        Dim("target", [[-1], [3], [1, -1], [0], "scalar-1"]),
+        Dim("allowzero", ["absent", 1]),
+        Dim("dtype", ["f32"], ["f32", "i64"]),
+        Dim("rt", ["as-declared", "one", "zero"]),
+        S.d_ck(1), S.d_inter(1), S.D_DIMS, S.D_VI, S.d_opset(18, 13, 11, 21, 23),
+    ]
+
+
+def _sq_prune(p, rule):
+    if (p["squeeze"] == "axes-attr") != (p["opset"] < 13) and p["squeeze"] != "no-axes":
+        return True
+    if p["opset"] < 14 and p["allowzero"] != "absent":
+        return True
+    if p["dims"] == "static" and p["rt"] != "as-declared":
+        return True
+    if p["dims"] != "static" and not p["xshape"]:
+        return True
+    return False
+
+
+def _sq_build(p, rule):
+    mb = MB(p["opset"])
+    xs = p["xshape"]
+    x = mb.inp("x", p["dtype"], S.shp(p, xs))
+    rt = {"as-declared": None, "one": 1, "zero": 0}[p["rt"]]
+    S.bind_like(mb, xs, variants=[{"N": rt, "?0": rt}] if rt is not None else None)
+    if rt is not None:
+        mb.bindings = mb.bindings[::-1]
+    if p["squeeze"] == "no-axes":
+        s = mb.node("Squeeze", [x])
+    elif p["squeeze"] == "axes-input":
+        s = mb.node("Squeeze", [x, mb.const(arr("i64", [0]), "init")])
+    else:
+        s = mb.node("Squeeze", [x], axes=[0])
+    t = p["target"]
+    tv = arr("i64", -1) if t == "scalar-1" else arr("i64", t)
+    c = mb.const(tv, S.kinds(p, 1)[0], alts=[arr("i64", [1, -1]) if t != "scalar-1" else tv])
+    az = {} if p["allowzero"] == "absent" else {"allowzero": 1}
+    mb.out(mb.node("Reshape", [s, c], **az))
+    S.expose(mb, p, [s])
+    return mb
+
+
+S.register(Space("squeeze_reshape_1d", _sq_dims, _sq_build,
+                 near=lambda p, r: len(p["xshape"]) != 1 or p["target"] != [-1] or p["squeeze"] != "no-axes" or S.is_nonconst(p),
+                 prune=_sq_prune), rule_ids=["squeeze_reshape_1d_rule"])
+
+
+# -- ScatterND that overwrites everything -> Identity(updates) -------------------------------------------
+_SC_IDX = {
+    "full": lambda n: [[i] for i in range(n)],
+    "permuted": lambda n: [[(i + 1) % n] for i in range(n)],
+    "partial": lambda n: [[i] for i in range(n - 1)],
+    "duplicate": lambda n: [[0] for _ in range(n)],
+    "negative": lambda n: [[i - n] for i in range(n)],
+    "reversed": lambda n: [[n - 1 - i] for i in range(n)],
+}
+
+
+def _scs_dims(rule):
+    return [
+        Dim("dshape", [[3, 2], [3], [1, 2]], [[3, 2], [3], [1, 2], [2, 2, 2], [0, 2]]),
+        Dim("idx", list(_SC_IDX)),
+        Dim("reduction", ["absent", "none", "add", "mul"], ["absent", "none", "add", "mul", "max", "min"]),
+        Dim("dtype", ["f32", "i64"], ["f32", "i64", "f64", "i32"]),
+        Dim("ushape", ["same", "declared-sym"]),
+        S.d_ck(1), S.D_DIMS, S.D_VI, S.d_opset(18, 13, 16, 21, 23),
+    ]
+
+
+def _scs_prune(p, rule):
+    if p["opset"] < 16 and p["reduction"] != "absent":
+        return True
+    if p["opset"] < 18 and p["reduction"] in ("max", "min"):
+        return True
+    return False
+
+
+def _scs_build(p, rule):
+    mb = MB(p["opset"])
+    ds = p["dshape"]
+    n = ds[0]
+    idx = _SC_IDX[p["idx"]](n)
+    if p["idx"] == "partial" and n <= 1:
+        raise Skip("no partial index set")
+    data = mb.inp("data", p["dtype"], S.shp(p, ds))
+    ush = list(ds)
+    if p["idx"] == "partial":
+        ush = [n - 1] + ds[1:]
+    p2 = dict(p)
+    if p["ushape"] == "declared-sym":
+        p2["dims"] = "sym" if p["dims"] == "static" else p["dims"]
+    upd = mb.inp("upd", p["dtype"], S.shp(p2, ush))
+    S.bind_like(mb, ds)
+    ia = np.array(idx, dtype=np.int64).reshape(len(idx), 1)
+    alt = np.array(_SC_IDX["duplicate"](len(idx)), dtype=np.int64).reshape(len(idx), 1)
+    ic = mb.const(ia, S.kinds(p, 1)[0], alts=[alt])
+    attrs = {} if p["reduction"] == "absent" else {"reduction": p["reduction"]}
+    mb.out(mb.node("ScatterND", [data, ic, upd], **attrs))
+    return mb
+
+
+def _scs_near(p, rule):
+    return p["idx"] != "full" or p["reduction"] not in ("absent", "none") or S.is_nonconst(p) or p["dims"] != "static" \
+        or p["ushape"] != "same"
+
+
+def _scs_klass(nd, p, rule):
+    if list(nd) == ["reduction"]:
+        return "reduction!=none"
+    return None
+
+
+S.register(Space("scatter_nd_static", _scs_dims, _scs_build, near=_scs_near, prune=_scs_prune, klass=_scs_klass),
+           rule_ids=["no_op_static_scatter_nd_rule"])
+
+
+def _scd_dims(rule):
+    return [
+        Dim("axis", [0, 1, -1, "[0]"]),
+        Dim("td", ["transpose", "data", "other-same", "other-diff"]),
+        Dim("reduction", ["none", "absent", "add"]),
+        Dim("shape_attrs", ["start0", "absent", "start0-end", "start1"]),
+        Dim("range", ["0,1", "1,1", "0,2"]),
+        Dim("unsq", ["[-1]", "[1]"]),
+        Dim("dtype", ["f32"], ["f32", "i64"]),
+        Dim("square", ["no", "yes"]),
+        S.d_ck(1), S.D_DIMS, S.D_VI, S.d_opset(18, 16, 21, 23),
+    ]
+
+
+def _scd_build(p, rule):
+    mb = MB(p["opset"])
+    ds = [3, 3] if p["square"] == "yes" else [2, 3]
+    both = (0, 1)
+    data = mb.inp("data", p["dtype"], S.shp(p, ds, sym_axes=both))
+    S.bind_like(mb, ds, sym_axes=both)
+    axis = p["axis"]
+    a = 0 if axis == "[0]" else axis
+    dim = ds[a]
+    sa = {"start0": {"start": 0}, "absent": {}, "start0-end": {"start": 0, "end": 2}, "start1": {"start": 1}}[p["shape_attrs"]]
+    shape = mb.node("Shape", [data], **sa)
+    ax_c = mb.const(arr("i64", [0]) if axis == "[0]" else arr("i64", a), S.kinds(p, 1)[0], alts=[arr("i64", [1]) if axis == "[0]" else arr("i64", 1 - (a % 2))])
+    g = mb.node("Gather", [shape, ax_c], axis=0)
+    r0, r1 = [int(v) for v in p["range"].split(",")]
+    rng = mb.node("Range", [mb.const(arr("i64", r0), "node"), g, mb.const(arr("i64", r1), "node")])
+    idx = mb.node("Unsqueeze", [rng, mb.const(arr("i64", [-1] if p["unsq"] == "[-1]" else [1]), "node")])
+    td_kind = p["td"]
+    if td_kind == "transpose":
+        td = mb.node("Transpose", [data], perm=[1, 0]) if a % 2 == 1 else mb.node("Identity", [data])
+        tds = [ds[1], ds[0]] if a % 2 == 1 else ds
+        td_sym = both
+    elif td_kind == "data":
+        td, tds, td_sym = data, ds, both
+    elif td_kind == "other-same":
+        tds = [dim, 4]
+        td = mb.inp("other", p["dtype"], S.shp(p, tds, sym_axes=(0,), names=("N" if a % 2 == 0 else "M",)))
+        td_sym = (0,)
+    else:
+        tds = [dim + 2, 4]
+        td = mb.inp("other", p["dtype"], S.shp(p, tds, sym_axes=(0,), names=("Q",)))
+        mb.bindings[0]["Q"] = dim + 2
+    ush = list(tds)
+    upd = mb.inp("upd", p["dtype"], ush)
+    attrs = {} if p["reduction"] == "absent" else {"reduction": p["reduction"]}
+    mb.out(mb.node("ScatterND", [td, idx, upd], **attrs))
+    return mb
+
+
+def _scd_near(p, rule):
+    return p["td"] in ("other-diff",) or p["reduction"] != "none" or p["shape_attrs"] != "start0" or p["range"] != "0,1" \
+        or S.is_nonconst(p) or (p["td"] == "data" and p["axis"] in (1, -1))
+
+
+S.register(Space("scatter_nd_dynamic", _scd_dims, _scd_build, near=_scd_near),
+           rule_ids=["no_op_dynamic_scatter_nd_rule"])
